@@ -327,9 +327,9 @@ def rule_mod_window(ctx):
     def configs():
         # large epochs: curr = MOD*K + c, K >= 1 symbolic (true age up to 64 needs curr >= age: K*MOD + c >= age holds
         # for K >= 4 when MOD=16; smaller K are covered by the concrete epochs below)
-        for c in range(MOD):
+        for c in _residues(MOD):
             yield ("K", c)
-        for e in range(0, 5 * MOD + 1):
+        for e in range(0, 5 * min(MOD, 64) + 1):
             yield ("c", e)
     try:
         for (kind, c) in configs():
@@ -365,9 +365,10 @@ def rule_mod_window(ctx):
         import itertools
         combos = list(itertools.product(AGES, repeat=3)) if tier == "thorough" else \
             [(a, b2, b2) for a in AGES for b2 in AGES] + [(0, 3, 7), (5, 1, 9), (13, 13, 2), (4, 4, 4)]
-        cfgs = [("K", x) for x in range(MOD)] + [("c", e) for e in range(0, 3 * MOD)]
+        MODc = min(MOD, 64)
+        cfgs = [("K", x) for x in _residues(MOD)] + [("c", e) for e in range(0, 3 * MODc)]
         if tier == "thorough":
-            cfgs = [("K", x) for x in range(MOD)] + [("c", e) for e in range(0, 2 * MOD + 4)]
+            cfgs = [("K", x) for x in _residues(MOD)] + [("c", e) for e in range(0, 2 * MODc + 4)]
         for (kind, c) in cfgs:
             for ages in combos:
                 if kind == "c" and max(ages) > c:
@@ -410,6 +411,78 @@ def rule_mod_window(ctx):
     if not ok:
         r.violate(M + "max", "max", "%s (config %s)" % (bad_max[0], bad_max[1:]), loc)
     r.notes.append("K_thr=%d, W=%d; symbolic K for large epochs, concrete epochs 0..%d" % (kthr, Wd, 5 * MOD))
+    return r
+
+
+def _residues(MOD):
+    """all residues of the clock modulo 2^W - for a wide stamp (a widened field) the 32 lowest and the 32 highest"""
+    if MOD <= 64:
+        return list(range(MOD))
+    return list(range(32)) + list(range(MOD - 32, MOD))
+
+
+def rule_mod_aging(ctx):
+    """C06 promises a number of grace periods independent of the length for every chain whose links are `at least a few
+    epochs old`.  The cascade decides on W-bit stamps that nothing ever ages: a stamp older than the window is read
+    again modulo 2^W, and for the residues next to the current epoch it looks recent.  Such a node stops the cascade and
+    waits its own grace periods; in a structure that grew while the clock ran (stamps spread over the residues) that is
+    every few nodes.  This rule evaluates the window function for every residue and every true age and reports the
+    ages >= K_thr that are classified `too recent`."""
+    r = RuleResult("MOD-AGING", ["C06"],
+                   "every stamp whose true age is at least the threshold is classified old enough by the cascade's test - also "
+                   "ages beyond one wrap of the W-bit stamp (a chain that grew over many epochs is still reclaimed in one pass)")
+    prog = ctx.prog
+    Wd = prog.const_value("utils::EPOCH_WIDTH")
+    MOD = 1 << Wd
+    from .registry import run_rules
+    dec = run_rules(ctx, ["CW-CASCADE-DECISION"])[0]
+    kthr = None
+    for inst in dec.instances:
+        s_ = inst["instance"]
+        if "curr - " in s_ and inst["ok"]:
+            try:
+                kthr = int(s_.split("curr - ")[1].rstrip(")"))
+            except ValueError:
+                pass
+    if kthr is None:
+        raise AnalysisError("MOD-AGING: threshold at the decision site not available (CW-CASCADE-DECISION did not pass)")
+    loc = prog.body(M + "le").loc(0)
+    recent = {}
+    n = 0
+    MAX_AGE = 64      # the quantifier of C12/C06: true ages 0..64
+    try:
+        for c in _residues(MOD):
+            for age in range(kthr, MAX_AGE + 1):
+                it = Interp(prog, consts={"WIDTH": Wd})
+                shift = (age + MOD - 1) // MOD
+                curr = W.affine(MOD, c + MOD * shift)
+                modu = it.call(M + "new", [binop_add(curr, 1)])
+                stamp = W.const((c - age) % MOD, 64, True)
+                res = it.call(M + "le", [ref(modu), stamp, binop_add(curr, -kthr)])
+                r.functions |= it.funcs
+                n += 1
+                if res.cst is None:
+                    raise Unknown("le undecided for residue %d age %d" % (c, age))
+                if res.cst != 1:
+                    recent.setdefault(age % MOD, set()).add(age)
+    except Unknown as ex:
+        raise AnalysisError("MOD-AGING: %s" % ex)
+    r.obligations += n
+    r.discharged += n
+    ok = not recent
+    r.instance("every true age in [%d, %d] is classified old enough for every residue of the clock" % (kthr, MAX_AGE), ok)
+    if not ok:
+        r.discharged -= 1
+        r.violate(M + "le", "never-aged", "stamps are never aged: a stamp whose true age is beyond the modular window is read "
+                  "again modulo 2^W, and for the residues next to the current epoch it looks `too recent` to the cascade - such a "
+                  "node is re-deferred for its own grace periods although it has been unreachable for longer than any reader can "
+                  "be pinned; a chain or queue that grew while the clock ran pays this every few nodes, i.e. epochs proportional "
+                  "to its length", loc)
+        r.notes.append("W=%d: %d of the %d residues look too recent beyond the window (true ages congruent to %s modulo %d)" % (
+            Wd, len(recent), MOD, sorted(recent), MOD))
+    r.notes.append("K_thr=%d, W=%d, ages %d..%d x %d residues%s, symbolic large epochs" % (
+        kthr, Wd, kthr, MAX_AGE, len(_residues(MOD)), "" if MOD <= 64 else " (sampled: the 32 lowest and 32 highest of %d)" % MOD))
+    r.require(n, 16 * 10, "window evaluations")
     return r
 
 
